@@ -207,7 +207,12 @@ class SymArr(_np.ndarray):
         raise Unsupported("len() of symbolic array")
 
     def __iter__(self):
-        raise Unsupported("iteration over symbolic array")
+        if self.ndim == 0:
+            raise TypeError("iteration over a 0-d array")
+        n = self.shape[0]
+        if not isinstance(n, int):
+            raise Unsupported("iteration over an array axis of symbolic length")
+        return iter([self[i] for i in range(n)])
 
     def __bool__(self):
         if self.ndim == 0:
